@@ -8,6 +8,17 @@ namespace Petl.Snapshot
 open Petl.Gen
 
 def expectedC16 : List (String × String) := [
+  ("file:io/base.py", "e2315106bbcaaf95"),
+  ("file:io/csv.py", "143722bf0e79c91e"),
+  ("file:io/csv_py3.py", "c1e744ce52bf68bb"),
+  ("file:io/html.py", "860313482e8c113f"),
+  ("file:io/json.py", "9a87ae69473e052e"),
+  ("file:io/pickle.py", "40e23d34076571f8"),
+  ("file:io/sources.py", "7c2b0cb2619a6b10"),
+  ("file:io/text.py", "b72fac07748bae66"),
+  ("file:util/base.py", "771a68108eeb730d"),
+  ("file:util/materialise.py", "66208e10041a09c8"),
+  ("file:util/timing.py", "0484ce267f7215fe"),
   ("io.csv_py3.TeeCSVView", "c2e0445ef438bb2c"),
   ("io.pickle.TeePickleView", "bed46c801a87d63b"),
   ("io.text.TeeTextView", "ab3a909625dceaca"),
